@@ -4,6 +4,7 @@
 -/
 import MelModel.Seal
 import MelModel.Lemmas.Pools
+import MelModel.Lemmas.TotalSeal
 namespace Mel
 open Mel.Gen
 
@@ -94,6 +95,263 @@ theorem C16_emptied_ergsym_fixed :
     (createBuiltins emptiedErgSymState).pools.get poolErgSym = some builtinDefault :=
   C16_emptied_builtin_recreated _ _ _ (by decide) (by decide : emptiedErgSymState.pools.get poolErgSym =
     some { lefts := 0, rights := 0, priceAccum := 7, liqs := 0 }) rfl
+
+/-! ### finding F24: a builtin pool emptied by the withdrawals of the block being sealed
+
+  `create_builtins` ran only at the start of `preseal_melmint`; a builtin pool whose whole liquidity is redeemed in the
+  block (the only holder of a user-opened pre-TIP-902 ERG/SYM pool; faucet-minted tokens, K-faucet-liq) left the
+  withdrawal phase with no reserves, and pegging (and the TIP-909 subsidy) divided by zero. Since the `fix:` the
+  builtin pools are made again after the withdrawal phase. -/
+
+/-- `preseal_melmint` as it was before the `fix:` for finding F24: no second `create_builtins` -/
+def presealMelmintOld (env : Env) (s : State) : Outcome State :=
+  let s0 := createBuiltins s
+  if s0.pools.length < 2 then .crash "assert!(pools.count() >= 2)" else
+  (processSwaps s0).bind fun s1 =>
+  (processDeposits env s1).bind fun s2 =>
+  (processWithdrawals env s2).bind fun s3 =>
+  processPegging s3
+
+/-- **the state handed to pegging has every due builtin pool, with liquidity**: a successful `preseal_melmint` went
+    through the three settlement phases to some `s3` and then ran the peg adjustment on `createBuiltins s3`, in which
+    each builtin pool that is due (MEL/SYM, MEL/ERG, and ERG/SYM once TIP-902 is active) exists and records
+    liquidity — whatever the withdrawals of the block did to it -/
+theorem C16_builtins_priced_after_withdrawals (env : Env) (s s' : State) (h : presealMelmint env s = .ok s') :
+    ∃ s1 s2 s3, processSwaps (createBuiltins s) = .ok s1 ∧ processDeposits env s1 = .ok s2 ∧
+      processWithdrawals env s2 = .ok s3 ∧ processPegging (createBuiltins s3) = .ok s' ∧
+      ∀ k ∈ builtinKeys s, ∃ p, (createBuiltins s3).pools.get k = some p ∧ p.liqs ≠ 0 := by
+  unfold presealMelmint at h
+  simp only at h
+  split at h
+  · cases h
+  · obtain ⟨s1, h1, h⟩ := Outcome.bind_eq_ok h
+    obtain ⟨s2, h2, h⟩ := Outcome.bind_eq_ok h
+    obtain ⟨s3, h3, h⟩ := Outcome.bind_eq_ok h
+    refine ⟨s1, s2, s3, h1, h2, h3, h, ?_⟩
+    have hs := (((createBuiltins_same s).trans (processSwaps_same _ _ h1)).trans
+      (processDeposits_same _ _ _ h2)).trans (processWithdrawals_same _ _ _ h3)
+    have hk : builtinKeys s3 = builtinKeys s := by
+      unfold builtinKeys State.tip902 State.tipCondition
+      rw [hs.2.1, hs.2.2]
+    intro k hk'
+    exact C16_builtins_have_liquidity s3 k (by rw [hk]; exact hk')
+
+/-- a withdrawal of a pool's WHOLE liquidity leaves it with no reserves and no liquidity (one of more than that is
+    skipped by the guard, `C16_withdraw_guard`) -/
+theorem C16_full_withdraw_empties (p : PoolState) (hq : p.liqs ≠ 0) :
+    p.withdraw p.liqs = .ok ({ p with liqs := 0, lefts := 0, rights := 0 }, p.lefts, p.rights) := by
+  unfold PoolState.withdraw
+  rw [if_neg (Nat.lt_irrefl _), if_neg hq]
+  simp
+
+/-- the withdrawal that empties the ERG/SYM pool: its single output carries all 5000 liquidity tokens of the pool -/
+def drainTx (env : Env) : Tx := {
+  kind := .liqWithdraw, inputs := [], outputs := [(⟨[7], 5000, liqTokenDenom env poolErgSym, []⟩ : CoinData)],
+  fee := 0, covenants := [], data := poolErgSym.toBytes, sigs := [], hash := [2], rawLen := 0, covHashes := [] }
+
+/-- the state of finding F24 (off the main network, so TIP-902 is active): MEL/SYM and MEL/ERG as created, ERG/SYM a
+    user-opened pool (5000 ERG, 7000 SYM, 5000 liquidity tokens, none of them nobody-owned), and the block contains
+    `drainTx`, which redeems all 5000 tokens; the token coin sits at the transaction's output slot, as
+    `get_withdrawal_transactions` requires. (The token denomination is `liqTokenDenom env poolErgSym`, so the state
+    is a function of `env`.) -/
+def drainedErgSymState (env : Env) : State := {
+  network := .custom02, height := 10, history := [],
+  coins := { coins := [(⟨[2], 0⟩, ⟨⟨[7], 5000, liqTokenDenom env poolErgSym, []⟩, 10⟩)], counts := [([7], 1)] },
+  txs := [drainTx env], feePool := 0, feeMultiplier := 0, tips := 0, doscSpeed := 0,
+  pools := [(poolMelSym, builtinDefault), (poolMelErg, builtinDefault),
+            (poolErgSym, { lefts := 5000, rights := 7000, priceAccum := 0, liqs := 5000 })],
+  stakes := [] }
+
+theorem drained_tip902 (env : Env) : (drainedErgSymState env).tip902 = true := rfl
+
+theorem drained_canon : canonicalPoolKey poolErgSym.toBytes = some poolErgSym := by decide
+
+/-- the first `create_builtins` finds the three pools with liquidity; there is no swap and no deposit in the block -/
+theorem drained_builtins (env : Env) : createBuiltins (drainedErgSymState env) = drainedErgSymState env := rfl
+theorem drained_swaps (env : Env) : processSwaps (drainedErgSymState env) = .ok (drainedErgSymState env) := rfl
+theorem drained_deposits (env : Env) :
+    processDeposits env (drainedErgSymState env) = .ok (drainedErgSymState env) := rfl
+
+/-- `drainTx` is selected as a withdrawal request -/
+theorem drained_request (env : Env) : isWithdrawRequest env (drainedErgSymState env) (drainTx env) = true := by
+  have hc : canonicalPoolKey (drainTx env).data = some poolErgSym := drained_canon
+  have hg : ((drainedErgSymState env).coins.getCoin (outCoinID (drainTx env) 0)).isSome = true := rfl
+  have hp : ((drainedErgSymState env).pools.get poolErgSym).isSome = true := rfl
+  unfold isWithdrawRequest
+  rw [show (drainTx env).outputs = [(⟨[7], 5000, liqTokenDenom env poolErgSym, []⟩ : CoinData)] from rfl]
+  simp only [hc, hg, hp]
+  simp [drainTx]
+
+/-- the state after the withdrawal phase: the reserves are paid out (5000 ERG, 7000 SYM), the pool is empty -/
+def drainedAfterWithdrawals (env : Env) : State := {
+  network := .custom02, height := 10, history := [],
+  coins := { coins := [(⟨[2], 1⟩, ⟨⟨[7], 7000, .sym, []⟩, 10⟩), (⟨[2], 0⟩, ⟨⟨[7], 5000, .erg, []⟩, 10⟩)],
+             counts := [([7], 2)] },
+  txs := [drainTx env], feePool := 0, feeMultiplier := 0, tips := 0, doscSpeed := 0,
+  pools := [(poolErgSym, { lefts := 0, rights := 0, priceAccum := 0, liqs := 0 }),
+            (poolMelSym, builtinDefault), (poolMelErg, builtinDefault)],
+  stakes := [] }
+
+/-- **the withdrawal phase empties the ERG/SYM pool** (no reserves, no liquidity) -/
+theorem C16_drained_withdrawals (env : Env) :
+    processWithdrawals env (drainedErgSymState env) = .ok (drainedAfterWithdrawals env) := by
+  unfold processWithdrawals
+  have hf : (drainedErgSymState env).txs.filter (isWithdrawRequest env (drainedErgSymState env))
+      = [drainTx env] := by
+    show [drainTx env].filter _ = _
+    simp [List.filter, drained_request]
+  simp only [hf]
+  have hk : extractPoolKeysSorted [drainTx env] = [poolErgSym] := by
+    unfold extractPoolKeysSorted
+    simp only [List.filterMap, show canonicalPoolKey (drainTx env).data = some poolErgSym from drained_canon]
+    rfl
+  have ht : transactionsForPool [drainTx env] poolErgSym = [drainTx env] := by
+    unfold transactionsForPool
+    simp [List.filter, show canonicalPoolKey (drainTx env).data = some poolErgSym from drained_canon]
+  rw [hk]
+  simp only [Outcome.foldlM', ht]
+  -- the one pool: 5000 of 5000 liquidity tokens redeemed, the reserves (5000, 7000) paid out in full
+  have hhead : (drainTx env).outputs.headD default = ⟨[7], 5000, liqTokenDenom env poolErgSym, []⟩ := rfl
+  have hg : (drainedErgSymState env).pools.get poolErgSym =
+      some { lefts := 5000, rights := 7000, priceAccum := 0, liqs := 5000 } := rfl
+  have hT : satSum [5000] = 5000 := rfl
+  have hw : ({ lefts := 5000, rights := 7000, priceAccum := 0, liqs := 5000 } : PoolState).withdraw 5000 =
+      .ok ({ lefts := 0, rights := 0, priceAccum := 0, liqs := 0 }, 5000, 7000) := rfl
+  have m1 : multiplyFrac 5000 5000 5000 = .ok 5000 := rfl
+  have m2 : multiplyFrac 7000 5000 5000 = .ok 7000 := rfl
+  unfold processWithdrawalsForPool
+  simp only [hg, List.map, hhead, hT, hw, Outcome.foldlM', m1, m2, Outcome.bind]
+  rfl
+
+/-- **before the `fix:` for F24 this seal crashed**: the old pipeline hands the emptied ERG/SYM pool to pegging, whose
+    implied price is a fraction with denominator zero -/
+theorem C16_old_drained_ergsym_crashes (env : Env) :
+    presealMelmintOld env (drainedErgSymState env) = .crash "melswap.rs: implied_price Ratio::new(_, 0)" := by
+  unfold presealMelmintOld
+  simp only
+  rw [drained_builtins, if_neg (show ¬ (drainedErgSymState env).pools.length < 2 by show ¬ 3 < 2; omega),
+    drained_swaps]
+  simp only [Outcome.bind]
+  rw [drained_deposits]
+  simp only
+  rw [C16_drained_withdrawals]
+  exact C16_pegging_crashes_on_empty_ergsym _ { lefts := 0, rights := 0, priceAccum := 0, liqs := 0 } rfl rfl rfl
+
+theorem C16_old_drained_ergsym_crashes' (env : Env) :
+    ∃ c, presealMelmintOld env (drainedErgSymState env) = .crash c :=
+  ⟨_, C16_old_drained_ergsym_crashes env⟩
+
+/-- **since the `fix:`** the second `create_builtins` puts the default ERG/SYM pool back, and that is the pool pegging
+    (and the subsidy) read: `preseal_melmint` on the state is the peg adjustment of a state whose ERG/SYM pool is
+    `builtinDefault` -/
+theorem C16_drained_ergsym_recreated (env : Env) :
+    presealMelmint env (drainedErgSymState env) = processPegging (createBuiltins (drainedAfterWithdrawals env)) ∧
+    (createBuiltins (drainedAfterWithdrawals env)).pools.get poolErgSym = some builtinDefault ∧
+    (createBuiltins (drainedAfterWithdrawals env)).pools.get poolMelSym = some builtinDefault ∧
+    (createBuiltins (drainedAfterWithdrawals env)).pools.get poolMelErg = some builtinDefault := by
+  refine ⟨?_, rfl, rfl, rfl⟩
+  unfold presealMelmint
+  simp only
+  rw [drained_builtins, if_neg (show ¬ (drainedErgSymState env).pools.length < 2 by show ¬ 3 < 2; omega),
+    drained_swaps]
+  simp only [Outcome.bind]
+  rw [drained_deposits]
+  simp only
+  rw [C16_drained_withdrawals]
+
+/-! the standing assumptions of sealing (the fields of `SealTotalPre`, Props/C09Seal.lean) hold of the state -/
+
+theorem drained_counts (env : Env) : CountsOk (drainedErgSymState env).coins := by
+  refine ⟨?_, ?_, ?_, ?_⟩
+  · show ([⟨[2], 0⟩] : List CoinID).Nodup
+    decide
+  · show ([[7]] : List Hash).Nodup
+    decide
+  · intro a
+    show (AList.get [(([7] : Hash), 1)] a).getD 0 =
+      ([(⟨[2], 0⟩, ⟨⟨[7], 5000, liqTokenDenom env poolErgSym, []⟩, 10⟩)].filter
+        fun (e : CoinID × CoinDataHeight) => e.2.coinData.covhash = a).length
+    by_cases ha : ([7] : Hash) = a
+    · subst ha; simp [AList.get]
+    · simp [AList.get, ha]
+  · intro e he
+    have : e = (([7] : Hash), 1) := by simpa [drainedErgSymState] using he
+    rw [this]; decide
+
+theorem drained_faithful (env : Env) : TotalSealL.Faithful (drainedErgSymState env).txs (drainedErgSymState env).coins := by
+  intro tx htx i o c ho hc
+  have htx' : tx = drainTx env := by simpa [drainedErgSymState] using htx
+  subst htx'
+  match i with
+  | 0 =>
+    have e1 : o = ⟨[7], 5000, liqTokenDenom env poolErgSym, []⟩ := by
+      have : (drainTx env).outputs[0]? = some ⟨[7], 5000, liqTokenDenom env poolErgSym, []⟩ := rfl
+      rw [this] at ho; exact (Option.some.inj ho).symm
+    have e2 : c = ⟨⟨[7], 5000, liqTokenDenom env poolErgSym, []⟩, 10⟩ := by
+      have : (drainedErgSymState env).coins.getCoin ⟨(drainTx env).hash, 0⟩ =
+          some ⟨⟨[7], 5000, liqTokenDenom env poolErgSym, []⟩, 10⟩ := rfl
+      rw [this] at hc; exact (Option.some.inj hc).symm
+    rw [e1, e2]
+  | n + 1 =>
+    have : (drainTx env).outputs[n + 1]? = none := rfl
+    rw [this] at ho; cases ho
+
+theorem drained_pools (env : Env) (k : PoolKey) (p : PoolState) (h : (drainedErgSymState env).pools.get k = some p) :
+    p = builtinDefault ∨ p = { lefts := 5000, rights := 7000, priceAccum := 0, liqs := 5000 } := by
+  simp only [drainedErgSymState, AList.get] at h
+  split at h
+  · cases h; exact Or.inl rfl
+  split at h
+  · cases h; exact Or.inl rfl
+  split at h
+  · cases h; exact Or.inr rfl
+  · cases h
+
+/-- **the state of finding F24 seals** — for every environment and with or without a proposer action — and in the
+    sealed state every builtin pool, the re-created ERG/SYM pool included, has liquidity and reserves on both sides -/
+theorem C16_drained_ergsym_seals (env : Env) (a : Option ProposerAction) :
+    ∃ ss, sealState env (drainedErgSymState env) a = .ok ss ∧
+      ∀ k ∈ [poolMelSym, poolMelErg, poolErgSym],
+        ∃ p, ss.st.pools.get k = some p ∧ p.liqs ≠ 0 ∧ 0 < p.lefts ∧ 0 < p.rights := by
+  obtain ⟨ss, h, hpo⟩ := sealState_ok_pools env (drainedErgSymState env) a (fun _ => drained_counts env)
+    (drained_faithful env) (by show ([[2]] : List Hash).Nodup; decide)
+    (fun k p h hl => by rcases drained_pools env k p h with rfl | rfl <;> decide)
+    (fun p h => by rcases drained_pools env _ p h with rfl | rfl <;> decide)
+    (by
+      show (if (liqTokenDenom env poolErgSym) = Denom.mel then 5000 else 0) + 0 ≤ 2 ^ 124
+      rw [if_neg (by intro e; cases e)]; decide)
+    (by show 0 + 0 + 2 ^ 21 ≤ 2 ^ 127; decide) (by show 10 < TIP_909_HEIGHT + 128 * SUBSIDY_HALVING; decide)
+  refine ⟨ss, h, ?_⟩
+  intro k hk
+  obtain ⟨p, hp, h1, h2, h3⟩ := hpo.builtins k (by rw [drained_tip902]; exact hk)
+  exact ⟨p, hp, by omega, h1, h2⟩
+
+/-- a concrete environment for evaluating the witness (the token hash is the identity) -/
+def drainEnv : Env := {
+  vm := { hash := id, sigOk := fun _ _ _ => true },
+  liqHash := id, fdp := fun h => 9 :: h, rewardId := fun _ => [], hdrHash := fun _ => [],
+  powOk := fun _ _ _ _ => .invalid, isGrandfathered := fun _ => false,
+  historyRoot := fun _ => [], coinsRoot := fun _ => [], txsRoot := fun _ _ => [],
+  poolsRoot := fun _ => [], stakesRoot := fun _ => [] }
+
+/-- the same by evaluation, with the values: sealed without an action in `drainEnv`, the ERG/SYM pool is the default
+    pool moved by the TIP-909 subsidy swap (4096 SYM in, 4075 ERG out), and the withdrawer holds the old reserves -/
+theorem C16_drained_ergsym_sealed_values :
+    ∃ ss, sealState drainEnv (drainedErgSymState drainEnv) none = .ok ss ∧
+      ss.st.pools.get poolErgSym =
+        some { lefts := 999995925, rights := 1000004096, priceAccum := 999991, liqs := 1000000000 } ∧
+      ss.st.coins.getCoin ⟨[2], 0⟩ = some ⟨⟨[7], 5000, .erg, []⟩, 10⟩ ∧
+      ss.st.coins.getCoin ⟨[2], 1⟩ = some ⟨⟨[7], 7000, .sym, []⟩, 10⟩ := by
+  have hv : (match sealState drainEnv (drainedErgSymState drainEnv) none with
+      | .ok ss => decide (ss.st.pools.get poolErgSym =
+            some { lefts := 999995925, rights := 1000004096, priceAccum := 999991, liqs := 1000000000 } ∧
+          ss.st.coins.getCoin ⟨[2], 0⟩ = some ⟨⟨[7], 5000, .erg, []⟩, 10⟩ ∧
+          ss.st.coins.getCoin ⟨[2], 1⟩ = some ⟨⟨[7], 7000, .sym, []⟩, 10⟩)
+      | _ => false) = true := by decide +kernel
+  cases hs : sealState drainEnv (drainedErgSymState drainEnv) none with
+  | ok ss => rw [hs] at hv; exact ⟨ss, rfl, of_decide_eq_true hv⟩
+  | reject e => rw [hs] at hv; cases hv
+  | crash c => rw [hs] at hv; cases hv
 
 theorem C16_default_has_reserves : HasReserves builtinDefault ∧ builtinDefault.liqs = 1000000000 := by
   simp [HasReserves, builtinDefault, MICRO_CONVERTER, BUILTIN_LIQ_MULT]
@@ -231,6 +489,14 @@ end Mel
 #print axioms Mel.C16_pegging_crashes_on_empty_ergsym
 #print axioms Mel.C16_old_emptied_ergsym_crashes
 #print axioms Mel.C16_emptied_ergsym_fixed
+#print axioms Mel.C16_builtins_priced_after_withdrawals
+#print axioms Mel.C16_full_withdraw_empties
+#print axioms Mel.C16_drained_withdrawals
+#print axioms Mel.C16_old_drained_ergsym_crashes
+#print axioms Mel.C16_old_drained_ergsym_crashes'
+#print axioms Mel.C16_drained_ergsym_recreated
+#print axioms Mel.C16_drained_ergsym_seals
+#print axioms Mel.C16_drained_ergsym_sealed_values
 #print axioms Mel.C16_default_has_reserves
 #print axioms Mel.C16_builtins_exist
 #print axioms Mel.C16_partial_withdraw_keeps_reserves
